@@ -376,11 +376,22 @@ Definition ex_nopath : obs :=
   mkObs "6" (Some "NO_PATH"%string) true "Voyager" (Some "mode 1"%string) None None [] None None (1 # 1000) (100000000000 # 1).
 Definition ex_eqp : eqpt := [("Voyager"%string, [mkMode "mode 1" 12 (32000000000 # 1) (100000000000 # 1) 1])].
 
+(* helpers that keep the (large) documents inside vm_compute *)
+Definition on_ok {A} (x : res A) (f : A -> bool) : bool := match x with Ok a => f a | Err _ => false end.
+Definition cell_is (row : list (string * cell)) (k : string) (c : cell) : bool :=
+  match sget k row, c with
+  | Some (CNum x), CNum y => Qeq_bool x y
+  | Some (CStr x), CStr y => String.eqb x y
+  | Some (CBool x), CBool y => Bool.eqb x y
+  | Some CEmpty, CEmpty => true
+  | _, _ => false
+  end.
+
 Example ex_model_defined :
-  (exists r, pathresult ex_served = Ok r /\ response_ok ex_served r = true) /\
-  (exists r, pathresult ex_blocked = Ok r /\ response_ok ex_blocked r = true) /\
-  (exists r, pathresult ex_nopath = Ok r /\ response_ok ex_nopath r = true).
-Proof. repeat split; eexists; split; vm_compute; reflexivity. Qed.
+  on_ok (pathresult ex_served) (response_ok ex_served) = true /\
+  on_ok (pathresult ex_blocked) (response_ok ex_blocked) = true /\
+  on_ok (pathresult ex_nopath) (response_ok ex_nopath) = true.
+Proof. repeat split; vm_compute; reflexivity. Qed.
 
 Example ex_hypotheses : ends_trx ex_served /\ reports_path ex_served = true /\ reports_path ex_nopath = false /\
   (o_path ex_served = [] -> o_fwd ex_served = None).
@@ -393,20 +404,21 @@ Qed.
 (* the validator rejects a response that reports the forward figures as reverse figures, and one with labels on a
    blocked request *)
 Example ex_rejects :
-  (exists r, pathresult ex_served = Ok r /\
-             response_ok (mkObs "7 | 3" None true "Voyager" (Some "mode 1"%string) (Some [0; 20]) (Some [4; 8]) ex_path
-                                (Some (ex_rx 0)) (Some (ex_rx (1 # 1))) (1 # 1000) (300000000000 # 1)) r = false) /\
-  (exists r, pathresult ex_served = Ok r /\
-             response_ok (mkObs "7 | 3" (Some "NO_SPECTRUM"%string) true "Voyager" (Some "mode 1"%string) None None ex_path
-                                (Some (ex_rx 0)) (Some (ex_rx (3 # 1))) (1 # 1000) (300000000000 # 1)) r = false).
-Proof. split; eexists; split; vm_compute; reflexivity. Qed.
+  on_ok (pathresult ex_served)
+        (response_ok (mkObs "7 | 3" None true "Voyager" (Some "mode 1"%string) (Some [0; 20]) (Some [4; 8]) ex_path
+                            (Some (ex_rx 0)) (Some (ex_rx (1 # 1))) (1 # 1000) (300000000000 # 1))) = false /\
+  on_ok (pathresult ex_served)
+        (response_ok (mkObs "7 | 3" (Some "NO_SPECTRUM"%string) true "Voyager" (Some "mode 1"%string) None None ex_path
+                            (Some (ex_rx 0)) (Some (ex_rx (3 # 1))) (1 # 1000) (300000000000 # 1))) = false.
+Proof. split; vm_compute; reflexivity. Qed.
 
 (* CSV of the served example: pass flag true (24.12 >= 12 + 2), of a variant with margin 13: false *)
 Example ex_csv :
-  (exists r row, pathresult ex_served = Ok r /\ csv_row ex_eqp 2 0 r = Ok row /\ sget "Pass?" row = Some (CBool true) /\
-                 sget "spectrum (N,M)" row = Some (CStr "[0, 20], [4, 8]")) /\
-  (exists r row, pathresult ex_served = Ok r /\ csv_row ex_eqp 13 0 r = Ok row /\ sget "Pass?" row = Some (CBool false)).
-Proof. split; do 2 eexists; repeat split; vm_compute; reflexivity. Qed.
+  on_ok (pathresult ex_served) (fun r => on_ok (csv_row ex_eqp 2 0 r) (fun row =>
+     cell_is row "Pass?" (CBool true) && cell_is row "spectrum (N,M)" (CStr "[0, 20], [4, 8]"))) = true /\
+  on_ok (pathresult ex_served) (fun r => on_ok (csv_row ex_eqp 13 0 r) (fun row =>
+     cell_is row "Pass?" (CBool false))) = true.
+Proof. split; vm_compute; reflexivity. Qed.
 
 (* aggregation: requests 0 and 2 are identical (fixed mode) and are joined into "2 | 0"; request 1 has no mode *)
 Definition ex_k (mode : fld) : list fld := [FStr "trx A"; FStr "trx B"; FBool false; FStr "Voyager"; mode; FNum (50 # 1)].
@@ -427,20 +439,20 @@ Qed.
 (* exact shape: the model's documents pass the strict validator; one extra key or one extra metric entry is refused *)
 Definition add_key (j : json) : json := match j with JObj kv => JObj (kv ++ [("x"%string, JNull)]) | _ => j end.
 Example ex_exact :
-  (exists r, pathresult ex_served = Ok r /\ response_exact ex_served r = true /\
-             response_ok ex_served (add_key r) = true /\ response_exact ex_served (add_key r) = false) /\
-  (exists r, pathresult ex_blocked = Ok r /\ response_exact ex_blocked r = true) /\
-  (exists r, pathresult ex_nopath = Ok r /\ response_exact ex_nopath r = true).
-Proof. repeat split; eexists; repeat split; vm_compute; reflexivity. Qed.
+  on_ok (pathresult ex_served) (fun r => response_exact ex_served r && response_ok ex_served (add_key r) &&
+                                         negb (response_exact ex_served (add_key r))) = true /\
+  on_ok (pathresult ex_blocked) (response_exact ex_blocked) = true /\
+  on_ok (pathresult ex_nopath) (response_exact ex_nopath) = true.
+Proof. repeat split; vm_compute; reflexivity. Qed.
 
 (* CSV cells of the served example: transponder pairs ceil(300 / 100) = 3, cost 3, reversed min SNR = 27.12 *)
 Example ex_csv_cells :
-  exists r row, pathresult ex_served = Ok r /\ csv_row ex_eqp 2 0 r = Ok row /\
-    sget "nb of tsp pairs" row = Some (CNum (3 # 1)) /\ sget "total cost" row = Some (CNum (3 # 1)) /\
-    sget "SNR-0.1nm (min)" row = Some (CNum (2412 # 100)) /\
-    sget "reversed path SNR-0.1nm (min)" row = Some (CNum (2712 # 100)) /\
-    sget "CD_penalty" row = Some (CStr "Infinity") /\ sget "PMD_penalty" row = Some (CStr "not evaluated").
-Proof. do 2 eexists. repeat split; vm_compute; reflexivity. Qed.
+  on_ok (pathresult ex_served) (fun r => on_ok (csv_row ex_eqp 2 0 r) (fun row =>
+     cell_is row "nb of tsp pairs" (CNum (3 # 1)) && cell_is row "total cost" (CNum (3 # 1)) &&
+     cell_is row "SNR-0.1nm (min)" (CNum (2412 # 100)) &&
+     cell_is row "reversed path SNR-0.1nm (min)" (CNum (2712 # 100)) &&
+     cell_is row "CD_penalty" (CStr "Infinity") && cell_is row "PMD_penalty" (CStr "not evaluated"))) = true.
+Proof. vm_compute. reflexivity. Qed.
 
 (* groups: twins r0, r1 (fixed mode) each disjoint from r2 and from r3: r1 absorbs r0, the groups of r0 are renamed,
    the groups that named r1 are removed; with a group of another shape ([r1; r4]) nothing is aggregated *)
